@@ -373,7 +373,9 @@ func c12copy(e influxql.Expr) influxql.Expr {
 
 var c12fields = []string{"*", "*::field", "*::tag", "/x/", "/^h/", "mean(*)", "count(*)", "min(*)", "holt_winters(*, 1, 2)", "mean(/x|y/)", "count(distinct(*))",
 	"derivative(mean(*), 1s)", "mean(*::field)", "mean(*::tag)", "top(*, 2)", "x", "x::float", "x AS al", "*, x", "host, *", "mean(x), /./", "x + y", "x + *", "mean(*) AS m", "x::field, host::tag, nosuch",
-	"sample(*, 3)", "first(/^[xs]/)", "/^(y|x|y)$/", "mean(/^(y|x)$/)", "count(*), mean(*)", "holt_winters(*, 10, 2), sum(*), first(*)", "mean(/x|y|s/), count(/x|y|s/), min(*)"}
+	"sample(*, 3)", "first(/^[xs]/)", "/^(y|x|y)$/", "mean(/^(y|x)$/)", "count(*), mean(*)", "holt_winters(*, 10, 2), sum(*), first(*)", "mean(/x|y|s/), count(/x|y|s/), min(*)",
+	// a typed wildcard followed by another expansion in the same field list; a wildcard three calls deep
+	"*::field, *", "*::tag, *::field, /./", "*::field, mean(*)", "cumulative_sum(derivative(mean(*), 1s))", "moving_average(difference(max(/y$/)), 3)"}
 var c12dims = []string{"", "host", "*", "/^r/", "time(1m), *", "host, region", "time(1m), nosuch", "/^(region|host)$/", "/^(region|rack|region)$/, host", "/region|host/", "time(1m), host", "time(1m, 30s), region, host"}
 var c12sources = []string{"m", "m1, m2", "m2, m1, m", "(SELECT * FROM m)", "(SELECT x, s FROM m GROUP BY host)", "(SELECT mean(x) FROM m1 GROUP BY *)", "(SELECT * FROM (SELECT * FROM m2))",
 	"(SELECT x AS z, top(y, host, 2) FROM m), m2", "(SELECT mean(*) FROM m GROUP BY time(1m), /./)", "unknown_measurement", "empty", "(SELECT x FROM m), (SELECT y FROM m1 GROUP BY x)", "(SELECT y FROM m1 GROUP BY x), (SELECT x FROM m)", "(SELECT host, mean(x) FROM m GROUP BY host)",
